@@ -3,7 +3,7 @@ from propslib import fn_scope
 
 PROP = dict(
     extract=["editor"],
-    lean_targets=["Chewing.Props.C06"],
+    lean_targets=["Chewing.Props.C06", "Chewing.Props.C06Layouts"],
     runs=[dict(bin="editor"), dict(bin="editor", args=["--script", "c06"], tag="editor-c06-sweep"),
           dict(bin="capi_props", tag="capi_props", args=["--histories", "300", "--calls", "40"], args_thorough=["--histories", "6000", "--calls", "40"])],
     scope=fn_scope("ed key"),
@@ -21,19 +21,22 @@ PROP = dict(
          "page, plus Entering (empty, English, non-empty at three cursor positions, a later conversion alternative chosen), "
          "EnteringSyllable (empty / non-empty buffer) and Highlighting; #stat c06_probes.* count probes per (state / list kind, page "
          "position) and per answer, c06_ignored_with_page_gt0 / _with_empty_buffer(_and_open_list) the ignored probes that matter "
-         "most. distinct = distinct record text",
+         "most; c06_bell_steps (+ .list_open / .with_notification / .entering / .entering_syllable) the steps answered with a bell on "
+         "which the full bell oracle ran. distinct = distinct record text",
     trusted_base=["hook H1 (Editor::verif_snapshot) is read-only; the layout and conversion answers of each step are recorded "
                   "through wrapper objects installed through the public constructors"],
     assumptions=["'nothing is being composed' = state Entering with an empty pre-edit; an open candidate list or highlight "
                  "counts as composing",
-                 "theorems hold for every environment (dictionary, layout, engine); they are about the editor's control flow"],
+                 "theorems hold for every environment (dictionary, layout, engine); they are about the editor's control flow",
+                 "phonetic buffer after a bell: a property of the layout (LayoutQuietAt: no state change on a rejected key), "
+                 "premise of bell_keeps_phonetic; sampled on the shipped layouts by the oracle, not proved of them"],
 )
 
 MANIFEST = dict(
     text="Lean 4 theorems (Chewing/Props/C06.lean) over the executable editor state-machine model (Model/Editor.lean, all four "
          "states and every arm of process_keyevent): ignore_frame / ignore_persistent (an ignored key leaves state, "
          "composition editor, phonetic buffer, options, engine and chosen alternative exactly as before and commits nothing), "
-         "bell_frame (pre-edit and cursor untouched), idle_passthrough (the 13 named keys are ignored from the idle state for "
+         "bell_frame (pre-edit and cursor untouched) and, user-visible, bell_keeps_display (below), idle_passthrough (the 13 named keys are ignored from the idle state for "
          "all modifiers and options), result_exclusive — for every environment, by case analysis over all arms. ignore_frame is "
          "about the WHOLE state value (for an open list: page number, action and the selector itself — phrase range, direction, "
          "strategy, its copy of the buffer; symbol sub-menu; special symbol) and the whole shared state except the volatile fields "
@@ -52,8 +55,38 @@ MANIFEST = dict(
          "paginated_candidates, page size, display(), len(). Excluded, with reason: `last` (it IS the answer); commit and "
          "notification strings (per-key outputs, reset by every key: they must be EMPTY after an ignored key, which is checked); "
          "the pending-flush level `dirty` and the estimator clock `time` (internal: no getter shows them; the clock ticks on every "
-         "key by design). Bell: composition-editor section unchanged, display() and len() unchanged. F29 and F37 were genuine "
-         "defects, repaired by fix: commits. "
+         "key by design). "
+         "BELL (round 2, Proofs/EditorBell.lean + Props/C06.lean): bell_effect gives the state and the WHOLE shared state after a "
+         "key answered with a bell, exactly, for every environment and all four state kinds: the state value is the pre-state's "
+         "(state kind; an open list's selector, range, action and page; Highlighting never bells) and the shared state is the "
+         "pre-state after the key preamble with last = bell, except in two named kinds of arm, given as decidable guards: "
+         "bellAsksLayout (Entering in Chinese mode without modifiers, and the layout arms of EnteringSyllable, hand the key to the "
+         "phonetic layout first and keep the layout's state after the key it rejected - `rejected` names the answers: in Entering "
+         "anything but absorb, in EnteringSyllable anything but absorb / commit / fuzzy) and bellMayNotify (Ctrl + digit in "
+         "Entering: a failed add-phrase bells WITH its message, msgFail or msgExists, in the notification buffer); plus the flush "
+         "of a dirty dictionary. Corollaries: bell_persistent (field form), bell_keeps_display (structure SameView: state value, "
+         "composition editor = symbols, gaps, selections, cursor, saved cursors, chosen alternative nth, options, engine, "
+         "Shared.conversion and Shared.display = display(), current_page_no, all_candidates, paginated_candidates, total_page all "
+         "as before; NO premise about the layout; only with a pending flush, which no key leaves behind, FlushNeutralAt / "
+         "ConvFlushNeutralAt), bell_keeps_capi_getters (CurrentPage, ChoicePerPage, TotalChoice, TotalPage, Enumerate), "
+         "bell_notice_empty (no notification outside the Ctrl-digit arm). The phonetic buffer is the one observable the EDITOR "
+         "does not protect: BellKeepsPhoneticAnyLayout (a bell never changes it, whatever the layout) is REFUTED over the model's "
+         "arbitrary environment (bell_keeps_phonetic_anyLayout_refuted: a layout that answers key error and moves on - the editor "
+         "keeps that state), proved exactly under LayoutQuietAt (bell_keeps_phonetic: the layout does not change state on the key "
+         "it rejects) and unconditionally outside the layout arms (bell_keeps_phonetic_of_not_asked); the premise is "
+         "DISCHARGED for the seven one-syllable layout models of C14 (Proofs/LayoutQuiet.lean: PressQuiet of tablePress for ANY "
+         "table, hsuPress, et26Press, dc26Press - a key answered key error / no word returns the state it was given, no layout "
+         "commits from the empty buffer - and of the trait's default fuzzy_key_press; Props/C06Layouts.lean: layout_models_quiet, "
+         "bell_keeps_phonetic_layout_models / _by_name: over layoutEnv L base a bell leaves the phonetic buffer as it was in "
+         "EnteringSyllable, Selecting, Highlighting, and in Entering with an empty phonetic buffer); Pinyin (own model) is not "
+         "covered by that proof; all shipped layouts incl. Pinyin are "
+         "checked against LayoutQuietAt by the oracle on every bell step (no violation: no finding). Non-vacuity examples for every "
+         "state kind that can bell (Entering key without character; EnteringSyllable rejected key; open list on page 1 of 3 with "
+         "Shift-j and with a digit beyond the list; Ctrl-2 with notification). Oracle for a bell = the theorem's notion: state "
+         "section, composition editor, phonetic buffer, engine + symbol tables, options, chosen alternative, dictionaries unchanged, "
+         "no commit string, a notification only in the Ctrl-digit arm of Entering, the candidate getters, display() and len() as "
+         "before (#stat c06_bell_steps, .list_open, .with_notification, .entering, .entering_syllable); the capi_props run compares "
+         "every C getter except the per-key outputs before / after a bell. F29 and F37 were genuine defects, repaired by fix: commits. "
          "C API (round 2, run capi_props): generated key/API histories (every chewing_handle_* handler incl. Default with all printable characters and non-characters, chewing_cand_*, option setters, buffer calls; three kinds of data directory) are driven through a C context and in lock-step through a twin chewing::editor::Editor built over the same data; after every call every C getter is compared with the twin's Rust getter (by-design differences modelled one by one: static vs heap strings, stateful Enumerate iterators, legacy zuin_*, chewing_ack) and this property's statement is evaluated on the C observations before/after the call; a difference or a failing statement is an oracle verdict with the history (FX2: the handlers narrowed the int key with `as u8`, repaired by fix a8c8390).",
     note="Trusted: Lean kernel (standard axioms), the read-only snapshot hook, harness + compiled model driver. The C getters "
          "(chewing_keystroke_CheckIgnore/CheckAbsorb, chewing_commit_Check, chewing_bopomofo_Check ...) and the key mapping of "
